@@ -18,7 +18,7 @@ func init() {
 			"C04.4 the context handed to DoQuery comes from context.WithCancel whose cancel function is called by a watcher goroutine, started before the query, on the stopping event; cancel is also called after the query returns; " +
 			"C04.6 inside the traversal package the caller's Alpha and K are overwritten only on paths where the value is known to be ≤ 0 (unset), so the bound of C04.1 is the configured one; " +
 			"C04.5 every traversal.Start in library code installs (*Server).TraversalNodeFilter, whose true-class excludes blocked IPs, invalid addresses and (with security on) insecure known IDs.",
-		NotDecided: "the numeric bound 'never more than Alpha' beyond the dominance argument (a '<=' for '<' is a value-level change), behaviour of the DoQuery callbacks themselves, timing of cancellation.",
+		NotDecided: "behaviour of the DoQuery callbacks themselves, timing of cancellation, the run-time count of goroutines (the bound follows from the strict guard outstanding < Alpha evaluated in the critical section of the increment, which is what C04.1 requires).",
 		Assume:     []string{"Operation fields are only touched under Operation.mu (checked as C02.5)"},
 		Rules: []*Rule{
 			{ID: "C04.1", Doc: "bounded fan-out", Floor: 4, Run: c04r1},
